@@ -48,7 +48,10 @@ def make_tokens(bdir, rnd, tier):
                     tmpl = G.jwe_template(wrap, enc, zip_, None)
                     plen = len(G.b64(G.dumps(tmpl["protected"]).encode()))
                     aad = {"none": None, "short": "YWFk", "equal": "A" * plen, "long": "B" * (plen + 37)}[aadk]
-                    tmpl = G.jwe_template(wrap, enc, zip_, aad, where=rnd.choice(["protected", "protected", "split"]))
+                    where = rnd.choice(["protected", "protected", "split"])
+                    if not zip_ and (aadk != "none") and rnd.random() < 0.5:
+                        where = "none"           # aad is then the only authenticated header-side input
+                    tmpl = G.jwe_template(wrap, enc, zip_, aad, where=where)
                     pt = rnd.choice(pts)
                     req.append("jweenc\t%s\t-\t%s\t%s" % (G.dumps(tmpl), G.dumps(key), pt.hex() or "-"))
                     meta.append((wrap, enc, zip_, aadk, key, pt))
@@ -180,7 +183,7 @@ def correspond(ctx):
         return None
 
     st = runner.standard(ctx, sym_cases, oracle, lambda c, o: True, on_disagree=on_disagree,
-                         rule="tokens produced by jose_jwe_enc for key-management x content-encryption x zip x aad (absent/shorter/equal/longer than protected) with parameters in protected or split headers; decryption with the recipient key, with a foreign key, in key sets; single-character mutations of protected, aad, iv, ciphertext, tag, encrypted_key and of p2s/p2c/epk/wrapped iv/tag; structural mutations (member removed, tag emptied, aad removed/truncated/extended/added). Symmetric and PBES2 cases also run on the extracted model; ECDH-ES and RSA cases on the implementation with the oracle",
+                         rule="tokens produced by jose_jwe_enc for key-management x content-encryption x zip x aad (absent/shorter/equal/longer than protected) with parameters in the protected header, split between protected and unprotected, or with no protected header at all (aad alone authenticated); decryption with the recipient key, with a foreign key, in key sets; single-character mutations of protected, aad, iv, ciphertext, tag, encrypted_key and of p2s/p2c/epk/wrapped iv/tag; structural mutations (member removed, tag emptied, aad removed/truncated/extended/added). Symmetric and PBES2 cases also run on the extracted model; ECDH-ES and RSA cases on the implementation with the oracle",
                          dist=dist)
     impl = G.harness(bdir, pk_cases)
     for c, o in zip(pk_cases, impl):
